@@ -459,10 +459,22 @@ def parse_assumptions(out: str) -> dict:
 
 
 def load_findings(pid: str) -> list[dict]:
+    """known_findings.json is the committed list; findings/Cxx.json are the per-property source
+    fragments that bin/mkmanifest merges into it (read too, so both stay in step)."""
+    ents = []
     p = VERIF / "known_findings.json"
-    if not p.exists():
-        return []
-    return [e for e in json.loads(p.read_text())["findings"] if e["property"] == pid and e["status"] == "known"]
+    if p.exists():
+        ents += json.loads(p.read_text())["findings"]
+    q = VERIF / "findings" / f"{pid}.json"
+    if q.exists():
+        ents += json.loads(q.read_text())
+    seen, res = set(), []
+    for e in ents:
+        k = (e["property"], e["signature"], e["status"])
+        if e["property"] == pid and e["status"] == "known" and k not in seen:
+            seen.add(k)
+            res.append(e)
+    return res
 
 
 def match_finding(known: list[dict], signature: str):
